@@ -158,4 +158,23 @@ theorem c_memory_types_partial (h : C01_store_load_roundtrip_stmt) (p : Nat) (hp
   rw [c_layout_eq_canonical p hp t hs hf] at ha hb
   exact h p t v a st hp hv ha hb
 
+/-- `c_export_roundtrip` (`_partial`): an export's parameter record stored by the host at an address
+aligned and sized by the *C* layout of the parameter tuple is read back by the bindings (which read
+linear memory through the C structs) as the same values — given the named C01 statement. -/
+theorem c_export_roundtrip_partial (h : C01_store_load_roundtrip_stmt) (p : Nat) (hp : p = 4 ∨ p = 8)
+    (params : List Ty) (vs : List Val) (hs : cSupportedAll params = true) (hf : flagsLe32All params = true)
+    (hv : Spec.hasTy (.tuple params) (.record vs) = true) (a : Nat) (st : Spec.St)
+    (ha : a % (cSA p (.tuple params)).2 = 0) (hb : a + (cSA p (.tuple params)).1 ≤ st.heap.next) :
+    Spec.load p (Spec.store p (.tuple params) (.record vs) a st).mem (.tuple params) a = some (.record vs) :=
+  c_memory_types_partial h p hp (.tuple params) (.record vs) (by simpa [cSupported] using hs)
+    (by simpa [flagsLe32] using hf) hv a st ha hb
+
+/-- `c_import_roundtrip` (`_partial`): the result a host stores into the import wrapper's `ret_area`
+(declared with the C layout's size and alignment) is lifted by the bindings as the same value. -/
+theorem c_import_roundtrip_partial (h : C01_store_load_roundtrip_stmt) (p : Nat) (hp : p = 4 ∨ p = 8)
+    (r : Ty) (v : Val) (hs : cSupported r = true) (hf : flagsLe32 r = true) (hv : Spec.hasTy r v = true)
+    (a : Nat) (st : Spec.St) (ha : a % (cSA p r).2 = 0) (hb : a + (cSA p r).1 ≤ st.heap.next) :
+    Spec.load p (Spec.store p r v a st).mem r a = some v :=
+  c_memory_types_partial h p hp r v hs hf hv a st ha hb
+
 end Witverif.Props.C10
